@@ -23,6 +23,8 @@ CORRESPONDENCES = [
     "gen-write:prepare_write/subdivide_shard~generated arithmetic",
     "gen-read:prepare_read+consumers+shapes~generated plan, views, shapes",
 ]
+API_ENV = {"maxshard": "TORCHSNAPSHOT_MAX_SHARD_SIZE_BYTES_OVERRIDE", "nobatch": "TORCHSNAPSHOT_DISABLE_BATCHING",
+           "slab": "TORCHSNAPSHOT_SLAB_SIZE_THRESHOLD_BYTES_OVERRIDE", "rank_budget": "TORCHSNAPSHOT_PER_RANK_MEMORY_BUDGET_BYTES"}
 RULE = ("overlap: every pair of boxes with offsets 0..3/sizes 0..3 (1-D) and offsets 0..2/sizes 0..2 (2-D), plus random "
         "3-D pairs, through torch's _check_shard_metadata_pair_overlap and _shards_get_overlap_region_wrt_saved_tensor; "
         "e2e: real ShardedTensor (world-size-1 gloo, _init_from_local_shards, local shards in shuffled order) of shape "
@@ -36,18 +38,26 @@ RULE = ("overlap: every pair of boxes with offsets 0..3/sizes 0..3 (1-D) and off
         "with holes. A case is non-trivial when at least one element is copied; distinct by content hash. Every case is "
         "evaluated twice inside coqc: by the hand-written model (model/Reshard.v) and by the terms regenerated from the "
         "source in this run (gen/ReshardGen.v, gen/ChunkGen.v through model/ReshardGenObs.v): regions with their dims, "
-        "the requests with path / byte range / entry, final contents, both shape computations, the dense box.")
+        "the requests with path / byte range / entry, final contents, both shape computations, the dense box. "
+        "api: through the public API and the real read scheduler - Snapshot.take of a real ShardedTensor (1-3 dims, grid "
+        "partition, >= 2 shards, max-shard-size override none / one element / one row / two rows, batching on and off, slab "
+        "threshold default / 40 bytes) to a scratch directory, then Snapshot.read_object into a ShardedTensor with another "
+        "partition (same or different global shape), a dense tensor, obj_out=None, each with memory_budget_bytes in "
+        "{None, 1, 1.5 saved shards, 10^8}, and Snapshot.restore into a differently sharded ShardedTensor with "
+        "TORCHSNAPSHOT_PER_RANK_MEMORY_BUDGET_BYTES in {unset, 1, 1.5 saved shards}; same oracle (covered elements equal the "
+        "saved tensor, all others keep their sentinel).")
 TRUSTED = [
     "Coq 8.16.1 kernel and its vm_compute VM (no native_compute)",
     "translator/gen_reshard.py (Python ast -> Gallina, fail closed, regenerated on every run): the loop of "
     "_shards_get_overlap_region_wrt_saved_tensor, _OverlappingRegion.get_views, the copy of consume_buffer, both loops of "
     "prepare_read (loop nest, skip conditions, the three dictionary-key expressions, saved/current argument order, ReadReq "
-    "fields), _get_global_shape, _validate_shape, ShardedTensorEntry.get_tensor_shape; translator/gen_chunk.py for the "
-    "arithmetic of subdivide_shard.  The per-run proof obligations are the instantiation lemmas of coq/proofs/ReshardInst.v",
+    "fields), _get_global_shape, _validate_shape, ShardedTensorEntry.get_tensor_shape, the statements of subdivide_shard "
+    "that build a piece (list updates, narrow, appended triple); translator/gen_chunk.py for the arithmetic of "
+    "subdivide_shard.  The per-run proof obligations are the instantiation lemmas of coq/proofs/ReshardInst.v",
     "hand-written parts of coq/model/Reshard.v that the generated terms are phrased in: boxes, tensors as functions, "
     "views as (offset vector, shape) with torch.narrow moving the offset, copy_ between views, torch's "
     "_check_shard_metadata_pair_overlap (validated exhaustively on small boxes every run), the store lookup by "
-    "(path, byte_range), subdivide_shard's list updates, the dispatch on type(obj_out), the merge of per-rank entries; "
+    "(path, byte_range), prepare_write around subdivide_shard, the dispatch on type(obj_out), the merge of per-rank entries; "
     "all tied to the code by differential runs of the generated terms and of the hand model against the real classes",
     "harness/props/C08.py generators, oracle, canonicalisation and lib/tocoq.py literal printer",
 ]
@@ -705,6 +715,157 @@ def C08_check_overlap(ctx: Ctx, res: Result, gen_ok: bool = False):
         res.traces_validated += len(pairs)
 
 
+# --------------------------------------------------------------------------- through the public API (take / read_object / restore)
+class C08Env:
+    """environment knobs of one scenario ({name: value or None}); restored on exit"""
+
+    def __init__(self, k):
+        self.k, self.saved = k, {}
+
+    def __enter__(self):
+        for name, envn in API_ENV.items():
+            self.saved[envn] = os.environ.get(envn)
+            v = self.k.get(name)
+            if v is None or v is False:
+                os.environ.pop(envn, None)
+            else:
+                os.environ[envn] = "1" if v is True else str(v)
+        return self
+
+    def __exit__(self, *a):
+        for envn, v in self.saved.items():
+            if v is None:
+                os.environ.pop(envn, None)
+            else:
+                os.environ[envn] = v
+
+
+def C08_api_scenario(rng, i):
+    nd = rng.choice([1, 2, 2, 2, 3])
+    shape = [rng.randint(2, 6) for _ in range(nd)]
+    dtype = DTYPES[i % len(DTYPES)]
+    for _ in range(20):
+        src_boxes = C08_grid_boxes([C08_random_cuts(rng, e) for e in shape])
+        if len(src_boxes) >= 2:
+            break
+    else:
+        src_boxes = C08_grid_boxes([[0, 1, shape[0]]] + [[0, e] for e in shape[1:]])
+    rng.shuffle(src_boxes)
+    es = ESIZE[dtype]
+    row = C08_numel(src_boxes[0][1]) // src_boxes[0][1][0] * es
+    return {"kind": "api", "shape": shape, "dtype": dtype, "src_boxes": src_boxes,
+            "maxshard": rng.choice([None, None, es, row, 2 * row]), "nobatch": rng.random() < 0.4,
+            "slab": rng.choice([None, None, 40])}
+
+
+def C08_api_ops(rng, scen):
+    shape, es = scen["shape"], ESIZE[scen["dtype"]]
+    shard_bytes = max(C08_numel(b[1]) for b in scen["src_boxes"]) * es
+    mid = shard_bytes + shard_bytes // 2
+    ops = []
+
+    def sharded_dst(same_shape):
+        dshape = list(shape) if same_shape else C08_dst_shape(rng, shape)
+        for _ in range(20):
+            boxes = C08_grid_boxes([C08_random_cuts(rng, e) for e in dshape])
+            if boxes != sorted(scen["src_boxes"]) or len(boxes) == 1:
+                break
+        rng.shuffle(boxes)
+        return {"kind": "sharded", "shape": dshape, "boxes": boxes}
+    for b in (None, 1, mid, 10 ** 8):
+        ops.append({"op": "read_object", "budget": b, "dst": sharded_dst(rng.random() < 0.7)})
+        ops.append({"op": "read_object", "budget": b, "dst": {"kind": "dense", "shape": C08_dst_shape(rng, shape) if rng.random() < 0.3 else list(shape)}})
+        ops.append({"op": "read_object", "budget": b, "dst": {"kind": "none"}})
+    for b in (None, 1, mid):
+        ops.append({"op": "restore", "budget": b, "dst": sharded_dst(True)})
+    return ops
+
+
+def C08_api_run(ctx: Ctx, scen, ops):
+    """one Snapshot.take of the scenario's ShardedTensor, then every op on it.  Returns (failures, #ops that copied something)."""
+    import torch
+    from torch.distributed._shard.sharded_tensor import ShardedTensor
+    from torchsnapshot import Snapshot, StateDict
+    from lib.world import safe_gc
+
+    shape, dtype = scen["shape"], scen["dtype"]
+    fails, nontrivial = [], 0
+    G = C08_global(shape, dtype)
+    src = C08_make_sharded(scen["src_boxes"], shape, [C08_slice(G, b) for b in scen["src_boxes"]])
+    truth = [([0] * len(shape), list(shape))]
+    root = ctx.scratch("c08api")
+    path = os.path.join(root, "snap")
+    try:
+        with C08Env({"maxshard": scen["maxshard"], "nobatch": scen["nobatch"], "slab": scen["slab"]}), safe_gc():
+            try:
+                Snapshot.take(path, {"state": StateDict({"foo": src})})
+            except Exception as e:  # noqa
+                return [Failure(f"C08:api:take-raised:{type(e).__name__}", f"Snapshot.take raised {type(e).__name__}: {str(e)[:200]}",
+                                {**scen, "ops": ops[:1]})], 0
+            for op in ops:
+                case = {**scen, "ops": [op], "dst": op["dst"]}
+                obj_out, dst_boxes, inits = C08_make_dst(op["dst"], dtype)
+                try:
+                    if op["op"] == "read_object":
+                        got = Snapshot(path).read_object("0/state/foo", obj_out=obj_out, memory_budget_bytes=op["budget"])
+                    else:
+                        app = {"state": StateDict({"foo": obj_out})}
+                        with C08Env({"maxshard": scen["maxshard"], "nobatch": scen["nobatch"], "slab": scen["slab"], "rank_budget": op["budget"]}):
+                            Snapshot(path).restore(app)
+                        got = app["state"]["foo"]
+                except Exception as e:  # noqa
+                    fails.append(Failure(f"C08:api:{op['op']}-raised:{type(e).__name__}:dst={op['dst']['kind']}",
+                                         f"{op['op']}(budget={op['budget']}) into {op['dst']['kind']} raised {type(e).__name__}: {str(e)[:200]}", case))
+                    continue
+                if isinstance(got, ShardedTensor):
+                    tensors = [s.tensor for s in got.local_shards()]
+                    dst_boxes = [(list(s.metadata.shard_offsets), list(s.metadata.shard_sizes)) for s in got.local_shards()]
+                    if inits is None or [len(x) for x in inits] != [C08_numel(b[1]) for b in dst_boxes]:
+                        inits = [[-1] * C08_numel(b[1]) for b in dst_boxes]
+                    elif obj_out is not None and isinstance(obj_out, ShardedTensor):
+                        # initial sentinels in the order of local_shards()
+                        by_box = {(tuple(b[0]), tuple(b[1])): ini for b, ini in zip(op["dst"]["boxes"], inits)}
+                        inits = [by_box.get((tuple(b[0]), tuple(b[1])), [-1] * C08_numel(b[1])) for b in dst_boxes]
+                elif isinstance(got, torch.Tensor):
+                    tensors = [got]
+                    dst_boxes = [([0] * got.dim(), list(got.shape))]
+                    if inits is None or len(inits[0]) != got.numel():
+                        inits = [[-1] * got.numel()]
+                else:
+                    fails.append(Failure(f"C08:api:{op['op']}-returned-{type(got).__name__}",
+                                         f"{op['op']} into {op['dst']['kind']} returned a {type(got).__name__}", case))
+                    continue
+                obs = {"dst_boxes": dst_boxes, "inits": inits, "final": [C08_ids(x) for x in tensors]}
+                fs = C08_oracle(case, truth, obs, lambda g: C08_gid(shape, g))
+                for f in fs:
+                    f.signature = f.signature.replace("C08:", f"C08:api:{op['op']}:", 1)
+                    f.what = f"{op['op']}(budget={op['budget']}, max_shard={scen['maxshard']}, nobatch={scen['nobatch']}): " + f.what
+                fails += fs
+                nontrivial += any(f != i for fin, ini in zip(obs["final"], inits) for f, i in zip(fin, ini))
+    finally:
+        shutil.rmtree(root, ignore_errors=True)
+    return fails, nontrivial
+
+
+def C08_api_sweep(ctx: Ctx, res: Result):
+    rng = ctx.rng
+    for i in range(ctx.n(8, 40)):
+        scen = C08_api_scenario(rng, i)
+        ops = C08_api_ops(rng, scen)
+        fails, _ = C08_api_run(ctx, scen, ops)
+        res.failures += fails
+        for op in ops:
+            res.case({"kind": "api", "shape": scen["shape"], "dtype": scen["dtype"], "src_boxes": scen["src_boxes"],
+                      "maxshard": scen["maxshard"], "nobatch": scen["nobatch"], "slab": scen["slab"], "op": op["op"],
+                      "budget": op["budget"], "dst": op["dst"]}, True)
+            res.count("api.op", op["op"])
+            res.count("api.budget", "none" if op["budget"] is None else "1" if op["budget"] == 1 else "large" if op["budget"] >= 10 ** 8 else "1.5 shards")
+            res.count("api.dst", op["dst"]["kind"])
+        res.count("api.n_src_shards", len(scen["src_boxes"]))
+        res.count("api.max_shard", "none" if scen["maxshard"] is None else "set")
+        res.count("api.batching", "off" if scen["nobatch"] else "on")
+
+
 # --------------------------------------------------------------------------- driver
 def C08_cases(ctx: Ctx):
     rng = ctx.rng
@@ -734,6 +895,7 @@ def C08_cases(ctx: Ctx):
 def C08_quiet():
     import logging
     logging.getLogger("torchsnapshot.io_preparers.sharded_tensor").setLevel(logging.ERROR)
+    logging.getLogger("torchsnapshot.snapshot").setLevel(logging.ERROR)
 
 
 def C08_gen_model(res: Result) -> bool:
@@ -785,6 +947,7 @@ def correspond(ctx: Ctx) -> Result:
                     res.count("case.saved_shards_share_a_location", g[2])
         finally:
             loop.close()
+        C08_api_sweep(ctx, res)
     runs = [("C08_w", CORRESPONDENCES[1], IMPORTS, "obs_write", cw), ("C08_r", CORRESPONDENCES[2], IMPORTS, "obs_read", cr),
             ("C08_m", CORRESPONDENCES[3], IMPORTS, "obs_merge", cm)]
     if gen_ok:
@@ -803,6 +966,9 @@ def correspond(ctx: Ctx) -> Result:
 def replay(ctx: Ctx, data):
     C08_quiet()
     with C08Group(ctx):
+        if data.get("kind") == "api":
+            fails, _ = C08_api_run(ctx, data, data["ops"])
+            return fails[0] if fails else None
         loop = asyncio.new_event_loop()
         try:
             fails, *_ = C08_run_case(data, loop)
@@ -817,8 +983,8 @@ MANIFEST = {
                    "_shards_get_overlap_region_wrt_saved_tensor with the order of its zipped lists and of the appended tuple, "
                    "_OverlappingRegion.get_views, the copy of consume_buffer, both loops of prepare_read - loop nest, skip "
                    "conditions, the dictionary key at the insertion / membership / lookup sites, the saved/current argument "
-                   "order, the ReadReq fields -, _get_global_shape, _validate_shape, ShardedTensorEntry.get_tensor_shape; "
-                   "translator/gen_chunk.py for the arithmetic of subdivide_shard). Instantiation lemmas "
+                   "order, the ReadReq fields -, _get_global_shape, _validate_shape, ShardedTensorEntry.get_tensor_shape, the "
+                   "piece construction of subdivide_shard; translator/gen_chunk.py for its arithmetic). Instantiation lemmas "
                    "(coq/proofs/ReshardInst.v, semantic where cheap) show the generated terms equal the hand-written model, and "
                    "the property theorems are restated over the generated terms: for any number of dimensions and any boxes the "
                    "generated region is exactly the intersection; the generated prepare_read executed with the generated "
@@ -834,7 +1000,7 @@ MANIFEST = {
     "level_note": ("Trusted: Coq kernel + VM; the translators gen_reshard.py / gen_chunk.py; the hand-written vocabulary of "
                    "coq/model/Reshard.v (tensors as functions, views as offset+shape, torch.narrow, Tensor.copy_, the store "
                    "lookup, torch's _check_shard_metadata_pair_overlap - validated exhaustively on small boxes every run) and "
-                   "the differential harness. Not translated: subdivide_shard's list updates and narrow, the dispatch on "
+                   "the differential harness. Not translated: prepare_write around subdivide_shard, the dispatch on "
                    "type(obj_out), deserialisation, the merge of per-rank entries (all covered by the correspondences). DTensor "
                    "placement arithmetic is torch's and is not modelled. Theorems are closed under the global context (no axioms)."),
     "technique": "Coq proof over terms translated from the Python source on every run (instantiation lemmas + per-dimension "
